@@ -168,7 +168,7 @@ func classifyEventsStore(st *ssa.Store, f *types.Var) evStore {
 func runC03(c *Ctx) {
 	p := c.P
 	pending := p.Field("internal", "poller", "pending")
-	posts := p.Field("internal", "poller", "posts")
+	posts, _ := p.postQueueFields()
 	events := p.Field("internal", "Slot", "Events")
 	handlersF := p.Field("internal", "Slot", "Handlers")
 	_ = handlersF
@@ -202,8 +202,7 @@ func runC03(c *Ctx) {
 	// ------------------------------------------------------------------------------------------------ R6
 	c.rule("C03-R6", "a posted handler is counted before it becomes visible to the dispatcher: the increment precedes the release of the queue mutex that publishes the append", 1)
 	{
-		postsF := p.Field("internal", "poller", "posts")
-		lckF := p.Field("internal", "poller", "lck")
+		postsF, lckF := p.postQueueFields()
 		for _, fn := range internalFuncs {
 			for _, a := range deepStoresTo(fn, postsF) {
 				if !isAppendOf(a.Store.Val) {
@@ -234,6 +233,23 @@ func runC03(c *Ctx) {
 				if a.Store.Parent() != fn {
 					continue // judged in the helper itself
 				}
+				if !counted && len(unlocks) > 0 && fn.Parent() == nil && fn.Object() != nil && !fn.Object().Exported() {
+					// a queue method that only appends: the count must precede every call of it
+					sites := p.callers(fn)
+					all := len(sites) > 0
+					for _, site := range sites {
+						before := false
+						eachInstr(site.Parent(), func(in ssa.Instruction) {
+							if d, ok := atomicAddDelta(in, pending); ok && d == 1 && dominatesInstr(in, site.(ssa.Instruction)) {
+								before = true
+							}
+						})
+						if !before {
+							all = false
+						}
+					}
+					counted = all
+				}
 				c.check(len(unlocks) > 0 && counted, fn, "count before publish", a.Store.Pos(), "pending is incremented before the mutex that publishes the handler is released", "the handler is appended and the mutex released before pending is incremented: the dispatcher can run it and decrement first, Pending() dips below the true count and RunPending can return with operations still in flight")
 			}
 		}
@@ -241,7 +257,76 @@ func runC03(c *Ctx) {
 
 	// ------------------------------------------------------------------------------------------------ R1 / R2
 	c.rule("C03-R1", "on every path of every function that updates the pending counter or Slot.Events, the net change of the counter equals the events performed on that path; a refused registration changes neither (R2)", 14)
+	// helpers that do one half of a balanced update (a queue method that appends without counting, say) are summarised
+	// and judged where they are called: every path of the helper has the same counter delta and the same number of appends
+	type c03sum struct{ delta, appends int64 }
+	summaries := map[*ssa.Function]c03sum{}
 	for _, fn := range internalFuncs {
+		if fn.Parent() != nil || fn.Object() == nil || fn.Object().Exported() || len(p.callers(fn)) == 0 {
+			continue
+		}
+		plain := true
+		relevant := false
+		eachInstr(fn, func(in ssa.Instruction) {
+			if _, ok := atomicAddDelta(in, pending); ok {
+				relevant = true
+			}
+			if _, ok := plainDelta(in, pending); ok {
+				relevant = true
+			}
+			if st, ok := in.(*ssa.Store); ok {
+				fv, _ := fieldAddrOf(st.Addr)
+				if fv == events {
+					plain = false
+				}
+				if fv == posts && isAppendOf(st.Val) {
+					relevant = true
+				}
+			}
+			if call, ok := in.(ssa.CallInstruction); ok && !call.Common().IsInvoke() && call.Common().StaticCallee() == nil {
+				if _, isB := call.Common().Value.(*ssa.Builtin); !isB {
+					plain = false // runs function values
+				}
+			}
+		})
+		if !plain || !relevant {
+			continue
+		}
+		paths, overflow := enumPaths(fn)
+		if overflow || len(paths) == 0 {
+			continue
+		}
+		var sum c03sum
+		uniform := true
+		for i, path := range paths {
+			var cur c03sum
+			for _, in := range path.Instrs() {
+				if d, ok := atomicAddDelta(in, pending); ok {
+					cur.delta += d
+				}
+				if d, ok := plainDelta(in, pending); ok {
+					cur.delta += d
+				}
+				if st, ok := in.(*ssa.Store); ok {
+					if fv, _ := fieldAddrOf(st.Addr); fv == posts && isAppendOf(st.Val) {
+						cur.appends++
+					}
+				}
+			}
+			if i == 0 {
+				sum = cur
+			} else if cur != sum {
+				uniform = false
+			}
+		}
+		if uniform && sum.delta != sum.appends {
+			summaries[fn] = sum
+		}
+	}
+	for _, fn := range internalFuncs {
+		if _, summarised := summaries[fn]; summarised {
+			continue
+		}
 		touches := false
 		constructs := false // the function builds the poller itself: its own waker registration must be discounted
 		pollerT := p.Named("internal", "poller")
@@ -259,6 +344,11 @@ func runC03(c *Ctx) {
 			}
 			if st, ok := in.(*ssa.Store); ok {
 				if fv, _ := fieldAddrOf(st.Addr); fv == events || fv == posts {
+					touches = true
+				}
+			}
+			if call, ok := in.(ssa.CallInstruction); ok {
+				if _, ok := summaries[call.Common().StaticCallee()]; ok && call.Common().StaticCallee() != nil {
 					touches = true
 				}
 			}
@@ -307,6 +397,10 @@ func runC03(c *Ctx) {
 				}
 				if call, ok := in.(ssa.CallInstruction); ok {
 					cc := call.Common()
+					if sum, ok := summaries[cc.StaticCallee()]; ok && cc.StaticCallee() != nil {
+						delta += sum.delta
+						appends += int(sum.appends)
+					}
 					if !cc.IsInvoke() && cc.StaticCallee() == nil {
 						if _, isB := cc.Value.(*ssa.Builtin); !isB {
 							if sig, ok := cc.Value.Type().Underlying().(*types.Signature); ok && sig.Params().Len() == 0 && sig.Results().Len() == 0 {
